@@ -20,8 +20,11 @@ def planted(rng, n):
     from math import comb
     while True:
         rows = [[F(rng.randint(-12, 12), 2) for _ in range(n + 1)] for _ in range(2)]
-        a = F(rng.randint(1, 7), 16) + F(2 * rng.randint(0, 2 ** 24) + 1, 2 ** 30)
-        b = F(rng.randint(9, 14), 16) + F(2 * rng.randint(0, 2 ** 24) + 1, 2 ** 30)
+        # both parameters anywhere in (0,1) at least 3/16 apart: straddling the split point 1/2 or in the same half
+        ka = rng.randint(1, 11)
+        kb = rng.randint(ka + 3, 14)
+        a = F(ka, 16) + F(2 * rng.randint(0, 2 ** 24) + 1, 2 ** 30)
+        b = F(kb, 16) + F(2 * rng.randint(0, 2 ** 24) + 1, 2 ** 30)
         k = rng.randint(1, n - 1)
         w = lambda j, s: comb(n, j) * s ** j * (1 - s) ** (n - j)
         den = w(k, a) - w(k, b)
@@ -56,7 +59,7 @@ def traced_out(res, c):
 def coq_traced(c, obs):
     if obs[0][0] in ("exc", "malformed"):
         return None
-    angles, isects, out = obs[0][1]
+    angles, isects, out = obs[0][1][:3]
     pl = lambda arr: "[" + "; ".join("(%s, %s)" % (coq_q(s), coq_q(t)) for s, t in (zip(arr[0], arr[1]) if arr and arr[0] else [])) + "]"
     return ["([%s], [%s], %s)" % ("; ".join("true" if a else "false" for a in angles), "; ".join(pl(i) for i in isects), pl(out))]
 
@@ -98,6 +101,16 @@ def run(ctx):
     a = lambda c: [enc_arr(c["rows"])]
     correspond(ctx, "self_intersections_glue", cases, [("hazmat.self_intersections_traced", a, traced_out)],
                coq_traced, HEADER, "chk_self", configs=("pure", "speedup"), nontrivial=lambda c: c["kind"] != "convex-arc")
+    def coq_calls(c, obs):
+        if obs[0][0] in ("exc", "malformed"):
+            return None
+        angles, _isects, _out, call_nodes = obs[0][1]
+        from common import coq_mat
+        size = max(abs(x) for r in c["rows"] for x in r) or F(1)
+        return ["(%s, [%s], [%s], %s)" % (coq_mat(c["rows"]), "; ".join("true" if a else "false" for a in angles),
+                                         "; ".join(coq_mat(n) for n in call_nodes), coq_q(F(1, 2 ** 40) * size))]
+    correspond(ctx, "self_intersections_visits_left_then_right", cases, [("hazmat.self_intersections_traced", a, traced_out)],
+               coq_calls, HEADER, "chk_self_calls", configs=("pure",), nontrivial=lambda c: c["kind"] != "convex-arc")
     sweep(ctx, "self_intersections_genuine_and_found", cases, [("Curve.self_intersections", a)], judge)
     # F7: repeated last control point -> unbounded recursion (pinned input; any other crash is reported)
     r = run_impl("pure", [{"op": "Curve.self_intersections_limited", "args": [enc_arr([[F(0), F(1), F(0), F(0)], [F(0), F(1), F(1), F(1)]])]}])[0]
